@@ -1,13 +1,16 @@
 (* C42 obligation: the container functions transcribed by hand in CWrapModel.v still have the bodies they were transcribed from
-   (fingerprints of the current cwrapper.cpp), and the generated table is well-formed. *)
+   (fingerprints of the current cwrapper.cpp), CWRAPPER_BEGIN / CWRAPPER_END have the text the model transcribes,
+   and the generated table is well-formed. *)
 From SE Require Import C42.CWrapSpec C42.CContainers C42.CWrapProofs C42.Gen_CWrap C42.CWrapTable.
 Local Open Scope string_scope.
 Theorem C42_hand_model_current :
   forallb (fun p => match find_cfun cwrap_table (fst p) with Some f => cf_fp f =? snd p | None => false end)
           hand_modelled = true /\
+  (cwrapper_begin_text =? modelled_cwrapper_begin) && (cwrapper_end_text =? modelled_cwrapper_end) = true /\
   forallb (fun f => forallb (fun i => (i <? length (cf_params f))%nat) (cf_args f)
                     && match cf_out f with OParam i => (i <? length (cf_params f))%nat | _ => true end
-                    && forallb (fun g => (snd g <? length (cf_params f))%nat) (cf_guards f ++ cf_casts f))
+                    && forallb (fun g => (snd g <? length (cf_params f))%nat) (cf_guards f ++ cf_casts f)
+                    && forallb (fun g => (fst g <? length (cf_params f))%nat) (cf_zguards f))
           cwrap_table = true.
-Proof. exact (conj hand_model_current table_well_formed). Qed.
+Proof. exact (conj hand_model_current (conj cwrapper_macros_current table_well_formed)). Qed.
 Print Assumptions C42_hand_model_current.
